@@ -117,7 +117,7 @@ class Universe:
     def pre(self, e):
         for i, v in enumerate(self.ms):
             if i in self.kept:
-                e.assume(z3.And(v >= 0, v <= self.B))
+                e.assume(z3.And(v >= (1 if self.spec.get('nozero') else 0), v <= self.B))
             else:
                 e.assume(v == 0)
         if self.spec.get('fixed_total'):
